@@ -29,6 +29,36 @@ def blank_strings(s):
     return re.sub(r'"(?:[^"\\]|\\.)*"|\'(?:[^\'\\]|\\.)*\'', lambda m: '"' + " " * (len(m.group(0)) - 2) + '"', s)
 
 
+def func_head(head):
+    """name of the function whose definition header `head` is (text between the previous ';'/'}' and the '{'), or None"""
+    h = head.rstrip()
+    while True:           # trailing __attribute__((...))
+        m = re.search(r"__attribute__\s*\(\(.*\)\)\s*$", h, re.S)
+        if m and h[:m.start()].rstrip().endswith(")"):
+            h = h[:m.start()].rstrip()
+        else:
+            break
+    if not h.endswith(")"):
+        return None
+    d = 0
+    for k in range(len(h) - 1, -1, -1):
+        if h[k] == ")":
+            d += 1
+        elif h[k] == "(":
+            d -= 1
+            if d == 0:
+                break
+    else:
+        return None
+    m = re.search(r"([A-Za-z_]\w*)\s*$", h[:k])
+    if not m or m.group(1) in KEYWORDS:
+        return None
+    pre = h[:m.start()]
+    if "=" in pre or re.search(r"\b(struct|union|enum)\s*$", pre):
+        return None
+    return m.group(1)
+
+
 def scan_tu(text):
     """-> (functions {name: body}, statics set) of one preprocessed TU"""
     s = blank_strings(text)
@@ -39,7 +69,7 @@ def scan_tu(text):
         if ch == "{":
             if depth == 0:
                 head = s[stmt_start:i]
-                m = re.search(r"([A-Za-z_]\w*)\s*\(([^{};]*)\)\s*(?:__attribute__\s*\(\(.*?\)\)\s*)*$", head, re.S)
+                m = func_head(head)
                 # find matching close
                 d, j = 1, i + 1
                 while j < n and d:
@@ -48,8 +78,8 @@ def scan_tu(text):
                     elif s[j] == "}":
                         d -= 1
                     j += 1
-                if m and m.group(1) not in KEYWORDS and "=" not in head.split("(")[0]:
-                    funcs[m.group(1)] = s[i + 1:j - 1]
+                if m:
+                    funcs[m] = s[i + 1:j - 1]
                     i = j
                     stmt_start = j
                     continue
